@@ -69,6 +69,13 @@ func c19ConvFuncs(c *kit.Ctx, m *c19Model) (decs, encs []*convModel) {
 //	decoder: for i := range ret { buf := make([]byte,4); O.PutUint16(buf[a:], in[2i+k]) ×2; ret[i] = CONV(O.Uint32(buf)) }
 //	encoder: for i, v := range in { buf := make([]byte,4); O.PutUint32(buf, CONV(v)); ret[2i+k] = O.Uint16(buf[a:]) ×2 }
 func c19ParseConv(c *kit.Ctx, f *kit.Func, decoder bool, T types.Type) *convModel {
+	return c19ParseConvDepth(c, f, decoder, T, 0)
+}
+
+func c19ParseConvDepth(c *kit.Ctx, f *kit.Func, decoder bool, T types.Type, depth int) *convModel {
+	if comp := c19Composed(c, f, decoder, T, depth); comp != nil {
+		return comp
+	}
 	cm := &convModel{F: f, Decoder: decoder, T: T, conv: "id"}
 	info := f.Info()
 	in := f.Params()[0]
@@ -379,7 +386,7 @@ func convInverse(a, b string) bool {
 }
 
 func c19R1(c *kit.Ctx, m *c19Model) {
-	r := c.Rule("R1", "32-bit conversions: every decoder has exactly one inverse encoder", 12)
+	r := c.Rule("R1", "32-bit conversions: every decoder has exactly one inverse encoder", 24)
 	decs, encs := c19ConvFuncs(c, m)
 	if len(decs) < 6 || len(encs) < 6 {
 		c.Fatalf("expected at least 6 decoders ([]uint16→[]T) and 6 encoders ([]T→[]uint16) of 32-bit values, found %d and %d", len(decs), len(encs))
@@ -395,6 +402,10 @@ func c19R1(c *kit.Ctx, m *c19Model) {
 			return fmt.Sprintf("byte maps differ: decoder %s, encoder %s", d.permString(), e.permString())
 		}
 		return ""
+	}
+	ef := newEffects(c)
+	for _, x := range append(append([]*convModel(nil), decs...), encs...) {
+		c19Purity(c, r, ef, x)
 	}
 	byT := map[string][]*convModel{}
 	for _, d := range decs {
